@@ -50,9 +50,24 @@ func Run(cfg hx.Config) (*hx.Meta, error) {
 		shapes = append(shapes, d2[:120]...)
 	}
 	shapes = ga.Dedup(append(extraTypes(cat), shapes...))
+	// outside the property's quantifier, kept as a demonstration that its guards are tight
+	// (C06_gostring_unexported_refuted / _infinite_refuted replayed on the real code): local
+	// structs with unexported fields - the model's evaluator and the Go compiler must both
+	// reject the text; values with infinite floats are kept in the pools for the same reason.
+	// (named structs only: an UNNAMED struct type with an unexported field written in the importing
+	// package is a different type whose field belongs to that package - it compiles, to another type)
+	demo := []*ga.Type{cat.SP, ga.P(cat.SP), ga.Sl(cat.SP), ga.M(ga.B("string"), ga.P(cat.SP))}
+	isDemo := map[string]bool{}
+	for _, t := range demo {
+		isDemo[t.Go(0)] = true
+	}
+	shapes = ga.Dedup(append(shapes, demo...))
 	var types []*ga.Type
 	for _, t := range shapes {
 		switch {
+		case isDemo[t.Go(0)]:
+			types = append(types, t)
+			meta.Count("types/outside-guard-demo")
 		case !exportedOnly(t, map[int]bool{}):
 			meta.Count("types/skipped-unexported-fields")
 		case bothExt(t):
@@ -143,8 +158,8 @@ func Run(cfg hx.Config) (*hx.Meta, error) {
 			vals := append(append([]*ga.Val{}, corpusVals[t.Go(0)]...), gen.Pool(t, map[int]*ga.Type{}, 3)...)
 			for _, v := range vals {
 				if !finite(t, v, map[int]*ga.Type{}) {
-					meta.CountSafe("values/skipped-non-finite-float")
-					continue
+					// outside the quantifier ("finite floats"): the text contains +Inf; model and compiler must both reject it
+					meta.CountSafe("values/non-finite-float-outside-guard")
 				}
 				tc.vals = append(tc.vals, v)
 				fmt.Fprintf(&cases, "gs %d %s\n", tc.idx, v.Sexp())
